@@ -606,6 +606,8 @@ class _Hold:
 
 
 def run(repo: Repo, rep: Report) -> None:
+    from ..selftest.guards_check import engine_selfcheck
+    engine_selfcheck(rep)
     confinement(repo, rep)
     hold = _Hold(rep)
     guards_strict(repo, hold)  # type: ignore[arg-type]
